@@ -253,6 +253,8 @@ type DocOpts struct {
 	AllowCR     bool
 	CleanText   bool // summaries without exotic bytes
 	SortedDates bool
+	Window      int     // if > 0: all dates within Window days after Base
+	Base        [3]int  // base date for Window
 }
 
 func genEntry(r *Rand, rec *GRecord, o DocOpts) (GEntry, string, []string) {
@@ -358,6 +360,10 @@ func GenDoc(r *Rand, o DocOpts) *GDoc {
 	var dates [][3]int
 	for i := 0; i < n; i++ {
 		y, m, d := genDate(r)
+		if o.Window > 0 {
+			a, _ := ymd{o.Base[0], o.Base[1], o.Base[2]}.plus(r.Intn(o.Window))
+			y, m, d = a.y, a.m, a.d
+		}
 		dates = append(dates, [3]int{y, m, d})
 	}
 	if o.SortedDates {
